@@ -10,6 +10,8 @@ def py_rowsel(r, variant=0):
     if t == "int":
         if variant % 7 == 5 and -128 <= r["i"] <= 127:
             return np.int8(r["i"])                  # a narrow numpy integer scalar
+        if abs(r["i"]) >= 2 ** 31:
+            return np.int64(r["i"])
         return int(r["i"]) if variant % 2 == 0 else np.int64(r["i"])
     if t == "slice":
         return slice(r["a"], r["b"], r["k"])
@@ -26,6 +28,8 @@ def py_colsel(c, variant=0):
     if c["t"] == "int":
         if variant % 7 in (5, 6) and -2 ** 15 <= c["i"] < 2 ** 15:
             return np.int8(c["i"]) if -128 <= c["i"] <= 127 else np.int16(c["i"])     # narrow numpy integer scalars
+        if variant % 7 == 4 or abs(c["i"]) >= 2 ** 31:
+            return np.int64(c["i"])
         return int(c["i"])
     if c["t"] == "slice":
         if c["a"] is None and c["b"] is None and c["k"] is None and variant % 3 == 2:
@@ -177,8 +181,15 @@ def _maybe_huge(sl, rng, p=0.05):
     return sl
 
 
+def _wrapped_int(i, rng):
+    """an integer index far outside the array that a 32-bit cast would map onto the valid index i"""
+    return i + rng.choice([2 ** 32, -2 ** 32, 2 ** 33])
+
+
 def rowsel_random(n, rng):
     r = rng.random()
+    if n >= 1 and rng.random() < 0.02:
+        return {"t": "int", "i": _wrapped_int(rng.randint(-n, n - 1), rng)}
     if n >= 3 and rng.random() < 0.06:
         # a contiguous block of rows with its inner rows permuted / one inner row replaced by a repeat of another:
         # first and last selected row are the first and last of the block
@@ -214,6 +225,8 @@ def rowsel_random(n, rng):
 
 
 def colsel_random(m, rng):
+    if rng.random() < 0.03:
+        return {"t": "int", "i": _wrapped_int(rng.randint(-(m + 1), m), rng)}
     if rng.random() < 0.3:
         return {"t": "int", "i": rng.randint(-(m + 1), m)}
     def bd():
